@@ -283,7 +283,22 @@ impl<'tera> VirtualMachine<'tera> {
             final(state).stack == old(state).stack,
             final(state).capture_block == old(state).capture_block,
             old(output).bytes@.is_prefix_of(final(output).bytes@),
+            // with no capture open, what the body writes goes to `output` - appended, all of it; with a
+            // capture open its top-level writes go to the capture instead (nothing is promised then)
+            (r is Ok && old(state).capture_buffers@.len() == 0) ==>
+                final(output).bytes@ == old(output).bytes@ + body_text(old(state).chunk, blocks_key(old(state).blocks@)),
     { unimplemented!() }
+}
+/// the text the body of `chunk` writes when run with the block stack `blocks` (names by content) and the rest of
+/// the state, which the RenderBlock arm does not touch between its entry and the nested run
+pub uninterp spec fn body_text<'t>(chunk: Option<&'t Chunk>, blocks: Seq<(Seq<char>, &'t Vec<Chunk>, usize)>) -> Seq<u8>;
+pub open spec fn blocks_key<'t>(blocks: Seq<(&'t str, &'t Vec<Chunk>, usize)>) -> Seq<(Seq<char>, &'t Vec<Chunk>, usize)> {
+    blocks.map_values(|e: (&'t str, &'t Vec<Chunk>, usize)| (e.0@, e.1, e.2))
+}
+pub broadcast proof fn lemma_blocks_key_push<'t>(blocks: Seq<(&'t str, &'t Vec<Chunk>, usize)>, e: (&'t str, &'t Vec<Chunk>, usize))
+    ensures #[trigger] blocks_key(blocks.push(e)) == blocks_key(blocks).push((e.0@, e.1, e.2))
+{
+    assert(blocks_key(blocks.push(e)) =~= blocks_key(blocks).push((e.0@, e.1, e.2)));
 }
 #[verifier::external_body]
 pub fn vx_str_eq_str(a: &str, b: &str) -> (r: bool) ensures r == (a@ == b@) { unimplemented!() }
